@@ -40,7 +40,9 @@ RelQueries == { Q("$", <<Child(SName(x_))>>), Q("$", <<Child(SName(y_))>>), Q("$
                 \* negative indices address the same elements as their normalized spelling
                 \* a member and something inside it (one selection below another: see Nested)
                 Q("$", <<Child(SName(b_)), Child(SIndex(1)), Child(SName(x_))>>), Q("$", <<Child(SName(z_))>>),
-                Q("$", <<Child(SName(<<233>>))>>), Q("$", <<Child(SName(y_)), Child(SIndex(-1))>>), Q("$", <<Child(SIndex(-1))>>), Q("$", <<Child(SIndex(-1)), Child(SName(x_))>>) }
+                Q("$", <<Child(SName(<<233>>))>>), Q("$", <<Child(SName(y_)), Child(SIndex(-1))>>), Q("$", <<Child(SIndex(-1))>>), Q("$", <<Child(SIndex(-1)), Child(SName(x_))>>),
+                \* a negative start that reaches back past the first element is the first element; a negative index that does is nothing
+                Q("$", <<Child(SName(y_)), Child(SSlice(<<-9>>, <<2>>, <<>>))>>), Q("$", <<Child(SName(y_)), Child(SIndex(-13))>>), Q("$", <<Child(SIndex(-4))>>) }
 
 Matches == Eval(mq, DocSeq[d])
 \* selections of one relative query below one match, locations relative to the match
